@@ -35,3 +35,8 @@ def run(ctx):
         parts["transport"] = str(e)
     cov["parts"] = parts
     return cov
+
+
+def replay(ctx, path):
+    from engines import replayer
+    return replayer.replay(ctx, path)
